@@ -224,6 +224,21 @@ CHECKS = {
     note="Residual / orthogonality predicates are floating point (alpha); truth and contract are exact. sygv/hegv, gges, select functions of gees, lacpy, larfg, "
          "larfx and range 'V' are not exercised. A driver with no right-hand side need not notice singularity.",
     technique="TLA+ truth of planted instances and wrapper contract evaluated by TLC; differential replay into cvxopt.lapack with an abstraction function"),
+ "C19": dict(
+    category="model_checking",
+    text="All runs use a GUARD build of base, blas, lapack and misc_solvers (build/guard_alloc.h: every block ends exactly at an inaccessible page and is "
+         "preceded by one; freed blocks become inaccessible), in crash-isolated forks, so an access outside a matrix or after its release kills one "
+         "attributable child. (1) accept/reject = footprint: the calls of C17's generator and the same calls with integer arguments replaced by values near "
+         "2^31, 2^30, 2^16, 46341 and their negatives (and integers that do not fit a C int) are executed; TLC evaluates Blas.tla (MC_BlasClamp: arguments "
+         "beyond 10^4 clamped - the buffers have < 10^3 cells) and the decision and the unchanged buffers are compared: a call accepted although its "
+         "footprint exceeds a buffer is a violation even if no guard page was hit. (2) the interpreter survives: the generators of C15 (dense programs), "
+         "C16 (sparse programs), C18 (LAPACK instances and free matrices) and C20 (buffer imports), LAPACK calls with huge integer arguments, and "
+         "constructors / indexing / slicing / sparse products / reshapes with huge integers. (3) every call raises a Python exception or returns.",
+    design_ref="DESIGN.md section 4 C19",
+    note="Only blocks allocated by the rebuilt modules are guarded. OPENBLAS_CORETYPE=Prescott and a 64-byte-slack retry keep the deliberate over-reads of "
+         "the external OpenBLAS kernels from being reported (over-reads of <= 64 bytes are therefore left to the exact comparisons of C15-C18). The contents "
+         "of a pivot vector are not 'arguments of the documented kind'. An 8 GB address-space limit turns huge allocations into MemoryError.",
+    technique="TLA+ footprint model (Blas.tla) evaluated by TLC against a guard-page build; crash-isolated replay of the generators of C15-C18 and C20 with boundary and near-2^31 values"),
  "C20": dict(
     category="model_checking",
     text="BufferProtocol.tla: names bound to matrix objects, objects owning storage, views (exported buffers) that keep their source alive; actions New / "
